@@ -201,8 +201,12 @@ def run_config(ctx, tap):
         tap.take()
         sig = dict(sig0, routine='bootstrap_sample', by=f'{rdm_by}/{pat_by}')
         wit = lambda **k: dict(wit0, routine='bootstrap_sample', rdm_by=rdm_by, pat_by=pat_by, **k)  # noqa
-        ok, out = ctx.guarded('bootstrap_sample', sig, bootstrap_sample, src, rdm_descriptor=rdm_by,
-                              pattern_descriptor=pat_by, data=wit)
+        kwd = {}
+        if rdm_by != 'index' or rng.integers(2):      # 'index' is the documented default: relying on it is the same
+            kwd['rdm_descriptor'] = rdm_by
+        if pat_by != 'index' or rng.integers(2):
+            kwd['pattern_descriptor'] = pat_by
+        ok, out = ctx.guarded('bootstrap_sample', sig, bootstrap_sample, src, data=wit, **kwd)
         ev = tap.take()
         if ok:
             sample, ridx, pidx = out
@@ -224,7 +228,8 @@ def run_config(ctx, tap):
         tap.take()
         sig = dict(sig0, routine='bootstrap_sample_rdm', by=rdm_by)
         wit = lambda **k: dict(wit0, routine='bootstrap_sample_rdm', rdm_by=rdm_by, **k)  # noqa: E731
-        ok, out = ctx.guarded('bootstrap_sample_rdm', sig, bootstrap_sample_rdm, src, rdm_descriptor=rdm_by, data=wit)
+        kwd = {'rdm_descriptor': rdm_by} if (rdm_by != 'index' or rng.integers(2)) else {}
+        ok, out = ctx.guarded('bootstrap_sample_rdm', sig, bootstrap_sample_rdm, src, data=wit, **kwd)
         ev = tap.take()
         if ok:
             sample, ridx = out
@@ -236,8 +241,8 @@ def run_config(ctx, tap):
         tap.take()
         sig = dict(sig0, routine='bootstrap_sample_pattern', by=pat_by)
         wit = lambda **k: dict(wit0, routine='bootstrap_sample_pattern', pat_by=pat_by, **k)  # noqa: E731
-        ok, out = ctx.guarded('bootstrap_sample_pattern', sig, bootstrap_sample_pattern, src,
-                              pattern_descriptor=pat_by, data=wit)
+        kwd = {'pattern_descriptor': pat_by} if (pat_by != 'index' or rng.integers(2)) else {}
+        ok, out = ctx.guarded('bootstrap_sample_pattern', sig, bootstrap_sample_pattern, src, data=wit, **kwd)
         ev = tap.take()
         if ok:
             sample, pidx = out
